@@ -27,7 +27,10 @@ use crate::nd;
 /// rows, then re-striping a shorter sequence into the same buffer.
 fn stripe_body<A: SymGen, const L: usize, const L2: usize>() {
     let pli = Pipeline::<A, Avx2>::default();
-    let mut seq = vec![A::Symbol::default(); L];
+    // a stack array: CBMC keeps the constants of a typed local array, whereas the
+    // content of a heap buffer read back as bytes becomes symbolic and the whole
+    // transpose network would have to be bit-blasted (measured: > 14 GB)
+    let mut seq = [A::Symbol::default(); L];
     let (a, b, c) = (A::any_sym(), A::any_sym(), A::any_sym());
     if L > 0 {
         seq[0] = a;
@@ -45,12 +48,10 @@ fn stripe_body<A: SymGen, const L: usize, const L2: usize>() {
         }
     }
     st.configure_wrap(2);
-    let seq2 = vec![c; L2];
+    let seq2 = [c; L2];
     pli.stripe_into(&seq2[..], &mut st);
     assert!(st.len() == L2);
     crate::witness!(L == 0 || c != A::Symbol::default(), "non-wildcard last symbol");
-    core::mem::forget(seq);
-    core::mem::forget(seq2);
     core::mem::forget(st);
 }
 
@@ -88,21 +89,21 @@ where
     crate::witness!(last.as_index() == 0, "lowest symbol index");
 }
 
-//@ C06 quick 1800 AVX2 stripe memory checks, DNA, L=1000 (R=32, last column short: the transpose block must not read past the sequence), then re-stripe L=40
+//@ C06 quick 3600 AVX2 stripe memory checks, DNA, L=1000 (R=32, last column short: the transpose block must not read past the sequence), then re-stripe L=40 | mem=12
 harness!(avx2, 1100, c06_avx2_stripe_dna_l1000, stripe_body::<Dna, 1000, 40>());
-//@ C06 quick 1800 AVX2 stripe memory checks, DNA, L=1024 (one full 32x32 block), then re-stripe L=0
+//@ C06 quick 3600 AVX2 stripe memory checks, DNA, L=1024 (one full 32x32 block), then re-stripe L=0 | mem=12
 harness!(avx2, 1100, c06_avx2_stripe_dna_l1024, stripe_body::<Dna, 1024, 0>());
-//@ C06 quick 1800 AVX2 stripe memory checks, DNA, L=993 (smallest length entering the block loop with a partial last column)
+//@ C06 quick 3600 AVX2 stripe memory checks, DNA, L=993 (smallest length entering the block loop with a partial last column) | mem=12
 harness!(avx2, 1100, c06_avx2_stripe_dna_l993, stripe_body::<Dna, 993, 33>());
-//@ C06 quick 1800 AVX2 stripe memory checks, protein, L=1056 (R=33: one block + one scalar row)
+//@ C06 quick 3600 AVX2 stripe memory checks, protein, L=1056 (R=33: one block + one scalar row) | mem=12
 harness!(avx2, 1100, c06_avx2_stripe_protein_l1056, stripe_body::<Protein, 1056, 1>());
 //@ C06 quick 1800 AVX2 permute scoring + max/argmax, DNA, R=2, M=3, exactly M-1 look-ahead rows, last row range
 harness!(avx2, 40, c06_avx2_score_edge_dna_r2_m3, score_edge_body::<Dna, 2, 3>());
 //@ C06 quick 1800 AVX2 gather scoring + max/argmax, protein, R=1, M=2, symbol index 20 everywhere
 harness!(avx2, 40, c06_avx2_score_edge_protein_r1_m2, score_edge_body::<Protein, 1, 2>());
-//@ C06 thorough 3600 AVX2 stripe memory checks, DNA, L=1023
+//@ C06 thorough 3600 AVX2 stripe memory checks, DNA, L=1023 | mem=12
 harness!(avx2, 1100, c06_avx2_stripe_dna_l1023, stripe_body::<Dna, 1023, 1000>());
-//@ C06 thorough 3600 AVX2 stripe memory checks, DNA, L=2047 (R=64: two blocks, partial last column)
+//@ C06 thorough 3600 AVX2 stripe memory checks, DNA, L=2047 (R=64: two blocks, partial last column) | mem=12
 harness!(avx2, 2100, c06_avx2_stripe_dna_l2047, stripe_body::<Dna, 2047, 32>());
-//@ C06 thorough 3600 AVX2 stripe memory checks, DNA, L=1025 (R=33)
+//@ C06 thorough 3600 AVX2 stripe memory checks, DNA, L=1025 (R=33) | mem=12
 harness!(avx2, 1100, c06_avx2_stripe_dna_l1025, stripe_body::<Dna, 1025, 1024>());
